@@ -395,7 +395,8 @@ func (usi *UnrotatedSegmentInfo) doRangeCheckForCols(timeFilteredBlocks map[uint
 				continue
 			}
 
-			isMatched := metautils.CheckRangeIndex(rangeFilter, cmi.Ranges, rangeOp, qid)
+			// records that do not have the column satisfy !=, the range does not know about them
+			isMatched := rangeOp == sutils.NotEquals || metautils.CheckRangeIndex(rangeFilter, cmi.Ranges, rangeOp, qid)
 			if isMatched {
 				timeFilteredBlocks[blkNum][col] = true
 			}
